@@ -130,6 +130,53 @@ contract(
     native=False,
 )
 
+# histidine: the name follows the protons actually present (HD1+HE2 = HIP, HD1 = HID, HE2 = HIE); a neutral histidine
+# that still carries both loses exactly one of them, chosen from the donor/acceptor flags the optimiser left;
+# a histidine declared protonated (HIP patch / HIP, HSP name) keeps both; no proton at all is an error, never a name
+def _his(tag, hd1, he2):
+    atoms = [("ND1", Named("nd1", Obj("pdb2pqr.structures:Atom", name=Const("ND1"), hdonor=Enum(0, 1), hacceptor=Enum(0, 1), bonds=Items()))),
+             ("NE2", Named("ne2", Obj("pdb2pqr.structures:Atom", name=Const("NE2"), hdonor=Enum(0, 1), hacceptor=Enum(0, 1), bonds=Items())))]
+    lst = [Ref("nd1"), Ref("ne2")]
+    if hd1:
+        atoms.append(("HD1", Named("hd1", Obj("pdb2pqr.structures:Atom", name=Const("HD1"), bonds=Items()))))
+        lst.append(Ref("hd1"))
+    if he2:
+        atoms.append(("HE2", Named("he2", Obj("pdb2pqr.structures:Atom", name=Const("HE2"), bonds=Items()))))
+        lst.append(Ref("he2"))
+    contract(
+        "pdb2pqr.aa:HIS.set_state", ["C02", "C01"],
+        params={"self": Obj("pdb2pqr.aa:HIS", name=Named("nm", Enum("HIS", "HIP", "HSP", "HID", "HIE")), ffname=Ref("nm"),
+                            patches=_patchsets("HIP", "NEUTRAL-NTERM"), is_n_term=Enum(0, 1), is_c_term=Enum(0, 1),
+                            map=DictOf(*atoms), atoms=Items(*lst))},
+        requires=[],
+        ensures=[
+            "self.ffname == expected_prefix(self.is_n_term, self.is_c_term, self.patches) + "
+            "('HIP' if ('HD1' in self.map and 'HE2' in self.map) else ('HID' if 'HD1' in self.map else 'HIE'))",
+            # declared protonated: nothing is removed
+            "implies('HIP' in self.patches or self.name == 'HIP' or self.name == 'HSP', len(self.atoms) == old(len(self.atoms)))",
+            # neutral with both protons: exactly one goes, the name is a neutral one
+            f"implies(not ('HIP' in self.patches or self.name == 'HIP' or self.name == 'HSP') and {bool(hd1 and he2)}, "
+            "len(self.atoms) == old(len(self.atoms)) - 1 and ('HD1' in self.map) != ('HE2' in self.map))",
+            # never a name without its protons: on a normal return at least one of the two is there
+            "'HD1' in self.map or 'HE2' in self.map",
+            # the proton that stays is the one on the donor nitrogen
+            f"implies({bool(hd1 and he2)} and not ('HIP' in self.patches or self.name == 'HIP' or self.name == 'HSP') and "
+            "old(nd1.hdonor) and not old(nd1.hacceptor), 'HD1' in self.map)",
+        ],
+        # (with a single proton and donor/acceptor flags pointing at the other nitrogen the code removes it and then
+        #  fails loudly - an error, not a wrong name; with no proton at all it must fail)
+        raises={"TypeError": "True"},
+        known=[BOTH_ENDS],
+        name=f"HIS.set_state.{tag}",
+        native=False,
+    )
+
+
+_his("both", True, True)
+_his("hd1", True, False)
+_his("he2", False, True)
+_his("none", False, False)
+
 # ---------------------------------------------------------------- nucleotides (na.py): ribo/deoxy + 5'/3' suffix
 for _cls, _l in (("ADE", "A"), ("CYT", "C"), ("GUA", "G")):
     contract(
